@@ -541,11 +541,18 @@ var c09Helpers_ = []c09Helper{
 		return commands.Command{JID: c09To, Node: "cfg"}.ForEach(ctx, nil, s, func(r commands.Response, p xml.TokenReader) (commands.Command, xml.TokenReader, error) {
 			for i := 0; i < 200; i++ {
 				if _, err := p.Token(); err != nil {
+					if err != io.EOF {
+						return commands.Command{}, nil, err // the reply cannot be read: an application stops here
+					}
 					break
 				}
 			}
 			if n++; n > 4 {
 				return r.Cancel(), nil, nil
+			}
+			if c09CloseAfterOne && n == 2 {
+				// the application does not like what it got and says so
+				return commands.Command{}, nil, errBoom
 			}
 			return r.Next(), nil, nil
 		})
@@ -662,7 +669,7 @@ func c09Helpers(rc *RC) {
 	serveT := e.Serve(m)
 	h := c09Helpers_[ch.Int("workload", len(c09Helpers_))]
 	// the peer answers every get/set IQ with a drawn reply
-	mode := ch.Int("workload", 6) // 0 canonical for some namespace, 1-3 mutated, 4 error, 5 other-namespace payload
+	mode := ch.Int("workload", 7) // 0 canonical for some namespace, 1-3 mutated, 4 error, 5 other-namespace payload, 6 not well-formed
 	reply := c09Replies[ch.Int("workload", len(c09Replies))]
 	if i := c09MatchingReply(h.name); i >= 0 && ch.Chance("workload", 1, 2) {
 		// half of the time the reply is (a mutation of) what this helper expects, so that its decoding is reached in depth
@@ -670,6 +677,15 @@ func c09Helpers(rc *RC) {
 	}
 	if mode >= 1 && mode <= 3 && reply != "" {
 		reply = mutate(rc, reply, mode, ch.Chance("workload", 1, 2))
+	}
+	if mode == 6 {
+		// the reply stops being XML somewhere inside: the stream is beyond repair, but the call and Serve still have to end
+		if reply == "" {
+			reply = c09Replies[0]
+		}
+		cut := 1 + ch.Int("workload", len(reply)-1)
+		reply = reply[:cut] + []string{"</bogus>", "<", "<<x/>", "&nosuchentity;", "</iq></iq>", "<a b=c/>", "\x00"}[ch.Int("workload", 7)] + reply[cut:]
+		rc.Fire("reply-not-well-formed")
 	}
 	extra := ""
 	if h.name == "history.Fetch" && ch.Chance("workload", 1, 2) {
